@@ -29,7 +29,7 @@ CHECKS = {
                 "(this found the pinned defect at prng.c:161, repaired by the fix: commit). (2) Finite-class abstract execution (D-FIN): the callback's return size is partitioned by the "
                 "constants it is compared with; init_user/reseed return 1 exactly for the class {32}; the request is for 32 bytes into a 32-byte field. (3) Under callback == NULL the first "
                 "request resolves (field values tracked along the path) to the function plain init passes. (4) Must-pass rules: on every path after the request, whatever it returned, V and C "
-                "are re-derived by hashes that absorbed the callback's buffer, counters are set, the stored callback is never NULL; with a caller-supplied callback its user data is stored on every path (no return reachable, null edges pruned, that avoids the store), and reseed makes its request through the stored callback with the stored user data. One entropy request per path in init_user and reseed (two requests on one path: the status and the bytes mixed in are not those of one delivery).",
+                "are re-derived by hashes that absorbed the callback's buffer, counters are set, the stored callback is never NULL; with a caller-supplied callback its user data is stored on every path (no return reachable, null edges pruned, that avoids the store), and reseed makes its request through the stored callback with the stored user data. Where the buffer is absorbed through a local staging copy the call-shape rule defers to the byte-provenance rule (delivered-bytes-*). One entropy request per path in init_user and reseed (two requests on one path: the status and the bytes mixed in are not those of one delivery).",
         "note": "Decides the control/data-flow shape that makes the statement true for every delivery pattern; does not compute hash values. Entropy quality is outside the property.",
         "technique": "null-check contradiction rule + finite-class abstract execution over the CFG + must-pass-through dominance rules",
     },
@@ -46,7 +46,7 @@ CHECKS = {
         "text": "Premises of a stated inductive invariant (emitted bytes since last request <= 32*(counter-1); emission only when counter <= limit; limit in [1,32768]) discharged over ALL "
                 "writes of the two budget fields in the linked module (census of stores, mem intrinsics, wipes and callee outputs in every function that takes the PRNG state) and over every "
                 "emission site of generate: per-iteration guard loaded from the state inside the loop, reseed on the exceeding edge, <= 32 bytes and one counter increment per emission; "
-                "interval image of the limit clamp over the partition of its parameter plus exact rounding at boundary representatives.",
+                "interval image of the limit clamp over the partition of its parameter (a proof when it lies within [1, 32768]; an interval that sticks out is an over-approximation and no witness: not decided) plus exact evaluation at the boundary representatives, the compared constants and the wrap points of the arithmetic (the refuter). The automatic reseed is known as a call of tinyjambu_prng_reseed; an entropy request made by generate itself is not recognised (exit 2).",
         "note": "The induction itself is the argument in DESIGN.md; the checker discharges its premises. 2^32 counter wrap is assumed away.",
         "technique": "whole-module write census + dominance/must-pass rules + interval abstract interpretation of the clamp",
     },
